@@ -76,7 +76,7 @@ Proof.
   rewrite L in Hi.
   specialize (A i Hi). unfold comp_ok in A.
   pose proof (nth_of_Forall _ _ [] i (split_slash_no_slash field) Hi) as Hc. cbn beta in Hc.
-  destruct (compile_comp (nth i (split_slash field) [])) as [l|pat|] eqn:Ec; [| |destruct A].
+  destruct (compile_comp (nth i (split_slash field) [])) as [l|pat] eqn:Ec.
   - rewrite A. apply literal_is_text in Ec. subst l. apply unquote_no_slash. exact Hc.
   - destruct A as ((ents & Ho & Hin) & _). destruct (Hok _ _ Ho) as [_ Hs]. apply Hs. exact Hin.
 Qed.
@@ -110,10 +110,10 @@ Proof.
 Qed.
 
 Lemma parse_literal_head c l :
-  parse_atoms 0 (Literal c :: l) = option_map (cons (AChar c)) (parse_atoms 0 l).
+  parse_atoms 0 (Literal c :: l) = AChar c :: parse_atoms 0 l.
 Proof. reflexivity. Qed.
 
-Lemma parse_literals s : parse_atoms 0 (map Literal s) = Some (map AChar s).
+Lemma parse_literals s : parse_atoms 0 (map Literal s) = map AChar s.
 Proof.
   induction s as [|c s IH]; [reflexivity|]. cbn [map]. rewrite parse_literal_head, IH. reflexivity.
 Qed.
@@ -197,9 +197,7 @@ Proof.
   intros Hq Hs. unfold glob_model. destruct noglob; [reflexivity|].
   assert (forall c, In c (split_slash field) -> compile_comp c = CLit (unquote c)) as Hl.
   { intros c Hc. apply quoted_comp_literal. intros x Hx. apply Hq. eapply split_slash_in; eauto. }
-  assert (field_supported field = true) as ->.
-  { unfold field_supported. apply forallb_forall. intros c Hc. rewrite (Hl c Hc). reflexivity. }
-  cbn [negb]. unfold glob_paths.
+  unfold glob_paths.
   destruct (search_all_literal (fs_opendir t cwd) (fs_lstat t cwd) (split_slash field) [] Hl) as [E|E]; rewrite E.
   - reflexivity.
   - cbn [app]. rewrite join_unquote_split by exact Hs. reflexivity.
@@ -208,19 +206,17 @@ Qed.
 (* ------------------------------------------------------------------ fallback *)
 Lemma glob_fallback_l t cwd field :
   glob_model t cwd true field = GFields [unquote field] /\
-  (field_supported field = true ->
-   (forall p, ~ ExpectedL t cwd field p) -> glob_model t cwd false field = GFields [unquote field]) /\
-  (field_supported field = true ->
-   forall p, ExpectedL t cwd field p ->
-             glob_model t cwd false field = GFields (glob_paths t cwd field) /\ In p (glob_paths t cwd field)).
+  ((forall p, ~ ExpectedL t cwd field p) -> glob_model t cwd false field = GFields [unquote field]) /\
+  (forall p, ExpectedL t cwd field p ->
+             glob_model t cwd false field = GFields (glob_paths t cwd field) /\
+             In p (glob_paths t cwd field)).
 Proof.
   split; [reflexivity|]. split.
-  - intros Hs Hn. unfold glob_model. rewrite Hs. cbn [negb].
+  - intros Hn. unfold glob_model.
     destruct (glob_paths t cwd field) as [|x l] eqn:E; [reflexivity|].
     exfalso. apply (Hn x), glob_exact_l. rewrite E. left; reflexivity.
-  - intros Hs p Hp. apply glob_exact_l in Hp. split; [|exact Hp].
-    unfold glob_model. rewrite Hs. cbn [negb].
-    destruct (glob_paths t cwd field); [destruct Hp | reflexivity].
+  - intros p Hp. apply glob_exact_l in Hp. split; [|exact Hp].
+    unfold glob_model. destruct (glob_paths t cwd field); [destruct Hp | reflexivity].
 Qed.
 
 (* ------------------------------------------------------------------ the oracle's enumeration *)
@@ -233,7 +229,7 @@ Qed.
 
 Lemma comp_okb_spec od prefix c n : comp_okb od prefix c n = true <-> comp_ok od prefix c n.
 Proof.
-  unfold comp_okb, comp_ok. destruct (compile_comp c) as [l|pat|].
+  unfold comp_okb, comp_ok. destruct (compile_comp c) as [l|pat].
   - apply str_eqb_eq.
   - rewrite !andb_true_iff, !negb_true_iff, !str_eqb_neq, pmatchb_spec.
     destruct (od (dir_of prefix)) as [ents|].
@@ -243,7 +239,6 @@ Proof.
       * intros ((ents' & E & Hin) & H2 & H3 & H4). injection E as <-.
         split; [split; [split; [exact Hin | exact H2] | exact H3] | exact H4].
     + split; [intros [[[H _] _] _]; discriminate | intros ((ents' & E & _) & _); discriminate].
-  - split; [discriminate | intros []].
 Qed.
 
 Lemma names_okb_spec od ex comps names :
@@ -295,12 +290,11 @@ Section Enumeration.
 
   Lemma comp_ok_cands prefix c n : comp_ok od prefix c n -> In n (cands universe c).
   Proof.
-    unfold comp_ok, cands. destruct (compile_comp c) as [l|pat|].
+    unfold comp_ok, cands. destruct (compile_comp c) as [l|pat].
     - intros ->. left; reflexivity.
     - intros ((ents & Ho & Hin) & _ & _ & Hm). apply filter_In. split.
       + eapply covers; eauto.
       + apply pmatchb_spec. exact Hm.
-    - intros [].
   Qed.
 
   Theorem spec_paths_correct_g field p :
@@ -331,12 +325,11 @@ Lemma strs_eqb_refl l : strs_eqb l l = true.
 Proof. apply (list_eqb_spec str_eqb str_eqb_eq). reflexivity. Qed.
 
 Lemma oracle_accepts_model_l t cwd noglob field :
-  wf_fs t = true -> field_supported field = true ->
+  wf_fs t = true ->
   fs_oracle t cwd noglob field (glob_model t cwd noglob field) = None.
 Proof.
-  intros Hwf Hs. unfold fs_oracle, oracle, glob_model.
+  intros Hwf. unfold fs_oracle, oracle, glob_model.
   destruct noglob; [rewrite strs_eqb_refl; reflexivity|].
-  rewrite Hs. cbn [negb].
   assert (forall p, In p (glob_paths t cwd field) <->
                     In p (spec_paths (fs_opendir t cwd) (fs_lstat t cwd) (fs_universe t) field)) as Heq.
   { intros p. rewrite spec_paths_correct_l, glob_exact_l. tauto. }
@@ -387,3 +380,21 @@ Proof.
   intros Hq H. cbn [to_pchars]. rewrite Hq.
   destruct H as [H|H]; rewrite H; cbn [is_hard]; rewrite ?orb_true_r; reflexivity.
 Qed.
+
+(* ------------------------------------------------------------------ elements of bracket expressions *)
+Lemma bracket_elements_examples_l :
+  (let pat s := compile_comp (soft_field s) in
+   let m s n := match pat s with CPat p => Some (pat_is_match p n) | CLit _ => None end in
+   m [91; 91; 58; 100; 105; 103; 105; 116; 58; 93; 93] [55] = Some true /\
+   m [91; 91; 58; 100; 105; 103; 105; 116; 58; 93; 93] [97] = Some false /\
+   m [91; 91; 46; 97; 98; 46; 93; 120; 93] [97; 98] = Some true /\
+   m [91; 91; 46; 97; 98; 46; 93; 120; 93] [120] = Some true /\
+   m [91; 91; 46; 97; 98; 46; 93; 120; 93] [97] = Some false /\
+   m [91; 33; 91; 46; 97; 98; 46; 93; 120; 93] [97] = Some true /\
+   m [91; 33; 91; 46; 97; 98; 46; 93; 93] [97] = Some true /\
+   m [91; 91; 58; 102; 111; 111; 58; 93; 93] [97] = None /\
+   m [91; 91; 46; 46; 93; 93] [97] = None /\
+   m [91; 97; 45; 91; 58; 97; 108; 112; 104; 97; 58; 93; 93] [97] = None /\
+   m [91; 91; 61; 97; 61; 93; 45; 99; 93] [98] = Some true /\
+   m [91; 91; 61; 97; 61; 93; 45; 99; 93] [100] = Some false)%N.
+Proof. vm_compute. repeat split. Qed.
